@@ -89,7 +89,13 @@ func jobBundle(w string, j int, pad int) *corecrl.Bundle {
 	return b
 }
 
-var urlOf = map[string]string{"u1": "http://crl.verif.example/ca.crl", "u2": "http://crl.verif.example/ca.crl "} // near-identical on purpose
+// near-identical on purpose: u2 differs from u1 by a trailing blank, by letter case or by a trailing slash (chosen per schedule)
+var urlVariants = []map[string]string{
+	{"u1": "http://crl.verif.example/ca.crl", "u2": "http://crl.verif.example/ca.crl "},
+	{"u1": "http://crl.verif.example/ca.crl", "u2": "http://crl.verif.example/CA.crl"},
+	{"u1": "http://crl.verif.example/ca.crl", "u2": "http://crl.verif.example/ca.crl/"},
+	{"u1": "http://crl.verif.example/ca.crl", "u2": "HTTP://CRL.VERIF.EXAMPLE/ca.crl"},
+}
 
 // ---- projection of the real directory -----------------------------------------------
 
@@ -135,7 +141,7 @@ func decodeEntryFile(path string) EntryObs {
 	return EntryObs{Kind: "file", W: idxWriter[n/100], J: n % 100}
 }
 
-func project(root string, urls []string) ProjObs {
+func project(root string, urls []string, urlOf map[string]string) ProjObs {
 	p := ProjObs{Entries: map[string]EntryObs{}}
 	for _, u := range urls {
 		p.Entries[u] = decodeEntryFile(keyPath(root, urlOf[u]))
@@ -486,6 +492,7 @@ func replaySchedule(id int, in SchedIn, mode string) []schedLine {
 	cache, err := crl.NewFileCache(root)
 	must(err)
 	urls := []string{"u1", "u2"}
+	urlOf := urlVariants[id%len(urlVariants)]
 	lines := []schedLine{{ID: id, K: 0, Mode: mode, Act: "Reset", In: &in}}
 	writers := map[string]writerHandle{}
 	inst := map[string]*crl.FileCache{}
@@ -553,7 +560,7 @@ func replaySchedule(id int, in SchedIn, mode string) []schedLine {
 		if serr != nil {
 			line.Err = serr.Error()
 		}
-		p := project(root, urls)
+		p := project(root, urls, urlOf)
 		line.Proj = &p
 		lines = append(lines, line)
 		if serr != nil {
